@@ -21,7 +21,7 @@ RULE = ("trials = fresh processes x {cold, warm} x N in {2,4,8,16}; non-trivial 
         "threads overlapped in time; distinct = distinct first-use order of dialect modules")
 ASSUMPTIONS = ["yields are injected only at line boundaries of Python code, where the interpreter may switch threads anyway"]
 SPEC = {
-    "quick": {"shards": 8, "time_cap": 170, "trials": 32},
+    "quick": {"shards": 8, "time_cap": 400, "trials": 32},
     "thorough": {"shards": 16, "time_cap": 1500, "trials": 320},
 }
 TRIAL = os.path.join(VERIF_DIR, "vf", "checks", "c19_trial.py")
